@@ -38,7 +38,8 @@ RULE = ("case families by index: rigid diagram (cups, caps, swaps, daggered "
         "tensor diagrams of Box/Swap/Spider/Bubble/Sum through eval().  "
         "Every case also evaluates up to 8 interchanges and the normal form.  "
         "Non-trivial = >= 2 boxes and a non-scalar or multi-layer value; "
-        "distinct by repr of the diagram and the interpretation.")
+        "distinct by repr of the diagram and the interpretation."
+        "  Also: one functor object reconfigured between three calls; multi-wire snakes (palindromic images) against the cup-free normal form.")
 SIZES = {"quick": (16, 250), "thorough": (16, 3000)}
 TIMEOUT = {"quick": 600, "thorough": 5400}
 COVER = {
